@@ -520,10 +520,16 @@ pub fn entry_obs(e: &cfb::Entry) -> EntryObs {
     }
 }
 
+pub const WALK_LIMIT: usize = 20_000;
+
 /// The complete logical content as seen through the public API.
 pub fn dump_real<F: Read + Seek>(comp: &mut CompoundFile<F>) -> Result<Dump, String> {
     let r = guarded(|| -> Result<Dump, String> {
-        let entries: Vec<EntryObs> = comp.walk().map(|e| entry_obs(&e)).collect();
+        // bounded: damaged sibling links can make an iteration cyclic
+        let entries: Vec<EntryObs> = comp.walk().take(WALK_LIMIT + 1).map(|e| entry_obs(&e)).collect();
+        if entries.len() > WALK_LIMIT {
+            return Err(format!("walk() yields more than {} entries (iteration does not terminate)", WALK_LIMIT));
+        }
         let mut contents = Vec::new();
         for e in &entries {
             if e.kind == Kind::Stream {
@@ -618,7 +624,7 @@ pub fn probe<F: Read + Seek>(comp: &mut CompoundFile<F>, model: &Model, path: &s
         // read_storage
         match (comp.read_storage(path), node) {
             (Ok(it), Some(n)) if n.kind != Kind::Stream => {
-                let got: Vec<EntryObs> = it.map(|e| entry_obs(&e)).collect();
+                let got: Vec<EntryObs> = it.take(WALK_LIMIT).map(|e| entry_obs(&e)).collect();
                 let want = model.root.list(names_.as_ref().unwrap()).unwrap();
                 if got.len() != want.len() || !got.iter().zip(want.iter()).all(|(g, w)| entry_matches(g, w, exact)) {
                     return Err(format!("read_storage({:?}) = {:?}, model says {:?}", path, got.iter().map(|e| &e.path).collect::<Vec<_>>(), want.iter().map(|e| &e.path).collect::<Vec<_>>()));
@@ -632,7 +638,7 @@ pub fn probe<F: Read + Seek>(comp: &mut CompoundFile<F>, model: &Model, path: &s
         // walk_storage
         match (comp.walk_storage(path), node) {
             (Ok(it), Some(_)) => {
-                let got: Vec<EntryObs> = it.map(|e| entry_obs(&e)).collect();
+                let got: Vec<EntryObs> = it.take(WALK_LIMIT).map(|e| entry_obs(&e)).collect();
                 let want = model.root.walk_from(names_.as_ref().unwrap()).unwrap();
                 if got.len() != want.len() || !got.iter().zip(want.iter()).all(|(g, w)| entry_matches(g, w, false)) {
                     return Err(format!("walk_storage({:?}) = {:?}, model says {:?}", path, got.iter().map(|e| &e.path).collect::<Vec<_>>(), want.iter().map(|e| &e.path).collect::<Vec<_>>()));
@@ -659,7 +665,7 @@ pub fn probe_root<F: Read + Seek>(comp: &mut CompoundFile<F>, model: &Model) -> 
         if re != want {
             return Err(format!("root_entry() = {:?}, model says {:?}", re, want));
         }
-        let got: Vec<EntryObs> = comp.read_root_storage().map(|e| entry_obs(&e)).collect();
+        let got: Vec<EntryObs> = comp.read_root_storage().take(WALK_LIMIT).map(|e| entry_obs(&e)).collect();
         let want = model.root.list(&[]).unwrap();
         if got != want {
             return Err(format!("read_root_storage() = {:?}, model says {:?}", got.iter().map(|e| &e.path).collect::<Vec<_>>(), want.iter().map(|e| &e.path).collect::<Vec<_>>()));
